@@ -129,31 +129,59 @@ class C01(Machine):
                 "task_cap": 200}
 
     # ------------------------------------------------------------ pair table
-    _pairs = None
+    _pairs = {}
 
-    def pairs(self):
-        if C01._pairs is None:
+    def pairs(self, seed=0, tier="thorough"):
+        """(class, mutator, query pattern) table.  Thorough: everything.
+        Quick: for subclasses, all patterns of methods the class does not
+        share with Network / InteractingNetworks, plus a seed-dependent
+        sample of the shared ones (the base classes sweep those in full)."""
+        key = (seed if tier != "thorough" else 0, tier)
+        if key not in C01._pairs:
             from registry.specs import SPECS
+            from pyunicorn.core.network import Network
+            from pyunicorn.core.interacting_networks import \
+                InteractingNetworks
+            rnd = random.Random(derive(seed, "c01-pair-sample"))
             out = []
             for s in SPECS:
                 muts = s.mutators()
                 if not muts:
                     continue
+                cls = s.cls()
+                qs = queries_for(s)
+                if tier != "thorough" and cls not in (Network,
+                                                      InteractingNetworks):
+                    own, shared = [], []
+                    for q in qs:
+                        f = getattr(cls, q[0], None)
+                        inh = any(f is not None and
+                                  getattr(b, q[0], None) is f
+                                  for b in (Network, InteractingNetworks))
+                        (shared if inh and not q[0].startswith("attr:")
+                         else own).append(q)
+                    qs = own + rnd.sample(shared, min(len(shared), 30))
                 for mu in muts:
-                    for (qn, kw) in queries_for(s):
+                    for (qn, kw) in qs:
                         out.append((s.name, mu.name, qn, kw))
-            C01._pairs = out
-        return C01._pairs
+            C01._pairs[key] = out
+        return C01._pairs[key]
 
     def generate(self, seed, tier, idx, lru):
         from registry.specs import BY_NAME, SPECS
         nconf = len(self.lru_configs(tier))
-        pairs = self.pairs()
-        p = idx // nconf if tier == "thorough" else idx
+        pairs = self.pairs(seed, tier)
+        # two pair-sweep runs for every random history, so that both layers
+        # progress whatever the budget; the sweep starts at a seed-dependent
+        # offset, so that a budget that does not finish it still covers
+        # every pair over a few seeds
+        k = idx // nconf if tier == "thorough" else idx
+        is_pair = (k % 3) != 2
+        p = (k // 3) * 2 + (k % 3)
         S = Streams(seed, self.pid, tier, idx)
         a, o = S["args"], S["ops"]
         rounds = 3 if tier == "thorough" else 1
-        if p < rounds * len(pairs):
+        if is_pair and (k // 3) * 2 + (k % 3) < rounds * len(pairs):
             cname, mname, qn, kw = pairs[p % len(pairs)]
             spec = BY_NAME[cname]
             mu = next(m for m in spec.mutators() if m.name == mname)
